@@ -223,7 +223,18 @@ def run(ctx):
         # the Hypothesis-drawn sources of this scope plus the enumerated small scope of era-boundary x rule interactions
         sysobjs = tzgen.systematic_sources(scope == "basic")
         ctx.count("systematic_sources_" + scope, len(sysobjs))
-        objs = sysobjs + batch[scope][: (400 if thorough else 120)]
+        # each enumerated source first goes through the Python path on its own (the compiler's own buffer-size estimation
+        # runs ZoneSpecifier, so a source on which it raises would take the whole batch down)
+        pre = vt.pmap(_systematic_job, [(tzgen.render(o), scope, os.path.join(work, "sys_%s_%d" % (scope, i)), o["label"]) for i, o in enumerate(sysobjs)])
+        good = []
+        for o, (n_eval, fail) in zip(sysobjs, pre):
+            ctx.evaluations += n_eval
+            if fail:
+                fail["key"] = "systematic:%s:%s" % (scope, o["label"].replace(" ", "_"))
+                fails.append(fail)
+            else:
+                good.append(o)
+        objs = good + batch[scope][: (400 if thorough else 120)]
         if not objs:
             continue
         text = "".join(tzgen.render(o, "S%d" % i) for i, o in enumerate(objs))
@@ -293,6 +304,19 @@ def run(ctx):
                 "[start_year, until_year); accounting of every input zone / link / policy (emitted xor removed-with-reason); extractor "
                 "counters; generated bufSize vs pool high-water; plus Hypothesis-generated small sources (both scopes, varying year "
                 "ranges) through path P. Non-trivial = distinct (corpus, scope, path, zone) with at least one transition in range")
+
+
+class _Counter:
+    def __init__(self):
+        self.evaluations = 0
+
+
+def _systematic_job(a):
+    text, scope, d, label = a
+    c = _Counter()
+    os.makedirs(d, exist_ok=True)
+    f = check_generated_source(c, text, scope, 2000, 2050, d, "s", {"zic_rejected": 0, "zones_compared": 0}, None)
+    return c.evaluations, f
 
 
 def check_generated_source(ctx, text, scope, sy, uy, work, tag, gen_stats=None, nt=None):
